@@ -928,7 +928,9 @@ class Interp:
             if name in obj.fields:
                 return obj.fields[name]
             if "__opaque__" in obj.fields:
-                self.world.opaque_check(self, obj, name, node)
+                r = self.world.opaque_check(self, obj, name, node)
+                if r is not None:
+                    return r
             m = obj.cls.lookup(name)
             if m is None:
                 if name == "__class__":
@@ -1020,7 +1022,11 @@ class Interp:
                     for _ in range(max(n, 0)):
                         out = z3.Concat(out, zs(s))
                     return mk_str(out)
-                self.unsupported("string repetition with symbolic count", node)
+                f = z3.Function("str_repeat", z3.StringSort(), z3.IntSort(), z3.StringSort())
+                r = f(zs(s), zi(n))
+                self.path.assume(z3.Implies(zi(n) <= 0, r == z3.StringVal("")), check=False)
+                self.path.assume(z3.Implies(zi(n) == 1, r == zs(s)), check=False)
+                return mk_str(r)
             if isinstance(a, PList) and is_intlike(b):
                 if isinstance(b, int) and not a.is_sym():
                     return PList(list(a.items) * b)
